@@ -10,6 +10,7 @@ import (
 	"io"
 	"io/ioutil"
 	"net/http"
+	"net/url"
 	"net/http/httptest"
 	"os"
 	"strconv"
@@ -73,6 +74,10 @@ type c12Case struct {
 	// offers deflate - anywhere in the list - it answers with it, in the zlib format of the standard ("zlib") or as a
 	// raw deflate stream ("raw", what some servers send)
 	PreferDeflate string `json:"preferDeflate,omitempty"`
+	// Job: the job's name ("" = ja).  Params: the target's own url params, written into the url as Prometheus does
+	// (url.Values.Encode): "" | plain | space | utf8 | latin1 (a value in a legacy encoding: %E9 is no UTF-8)
+	Job    string `json:"job,omitempty"`
+	Params string `json:"params,omitempty"`
 }
 
 func (c *c12Case) payload() []byte {
@@ -279,18 +284,38 @@ func runC12(rec *vkit.Recorder, c *c12Case) []vkit.Violation {
 	if c.Timeout != "" {
 		conf = strings.Replace(conf, "scrape_timeout: 10s", "scrape_timeout: "+c.Timeout, 1)
 	}
+	job := "ja"
+	if c.Job != "" {
+		job = c.Job
+		conf = strings.Replace(conf, "- job_name: ja\n", fmt.Sprintf("- job_name: %q\n", job), 1)
+	}
+	var params url.Values
+	tls := []string{"__address__", "h7:80", "__scheme__", "http", "__metrics_path__", "/metrics"}
+	switch c.Params {
+	case "plain":
+		params = url.Values{"module": {"http_2xx"}}
+	case "space":
+		params = url.Values{"module": {"http 2xx"}, "a+b": {"1"}}
+	case "utf8":
+		params = url.Values{"target": {"http://example.com/caf\u00e9"}}
+	case "latin1":
+		params = url.Values{"name": {"caf\xe9"}, "module": {"m"}}
+	}
+	for k, v := range params {
+		tls = append(tls, "__param_"+k, v[0])
+	}
 	n, err := newNode(dir, conf, rt)
 	if err != nil {
 		return []vkit.Violation{{Key: "C12/harness", Msg: err.Error()}}
 	}
 	if c.Assigned {
-		req := &shard.UpdateTargetsRequest{Targets: map[string][]*target.Target{"ja": {{Hash: 7, Labels: lbls("__address__", "h7:80", "__scheme__", "http", "__metrics_path__", "/metrics")}}}}
+		req := &shard.UpdateTargetsRequest{Targets: map[string][]*target.Target{job: {{Hash: 7, Labels: lbls(tls...)}}}}
 		if code, _ := n.post("/api/v1/shard/targets/", req); code != 200 {
 			return []vkit.Violation{{Key: "C12/harness", Msg: "update rejected"}}
 		}
 	}
 	w := &shortWriter{hdr: http.Header{}, writes: c.Writes}
-	preq := httptest.NewRequest("GET", proxyURL("ja", 7, "h7:80", "/metrics", nil), nil)
+	preq := httptest.NewRequest("GET", proxyURL(job, 7, "h7:80", "/metrics", params), nil)
 	// the headers a Prometheus scrape carries; the timeout header announces the job's scrape_timeout in seconds
 	preq.Header.Set("Accept", "application/openmetrics-text;version=1.0.0,application/openmetrics-text;version=0.0.1;q=0.75,text/plain;version=0.0.4;q=0.5,*/*;q=0.1")
 	if c.AcceptEncoding == "" {
@@ -383,6 +408,12 @@ func runC12(rec *vkit.Recorder, c *c12Case) []vkit.Violation {
 	}
 	if c.Gzip && c.Members > 1 {
 		cls = append(cls, "gzip-multi-member")
+	}
+	if c.Job != "" {
+		cls = append(cls, fmt.Sprintf("job-name/%q", c.Job))
+	}
+	if c.Params != "" {
+		cls = append(cls, "target-params/"+c.Params)
 	}
 	if w.short > 0 {
 		cls = append(cls, "short-writes")
@@ -478,6 +509,8 @@ func genC12(t *rapid.T) *c12Case {
 	c.Limits = rapid.IntRange(0, 2).Draw(t, "limits") == 0
 	c.PreferDeflate = rapid.SampledFrom([]string{"", "", "zlib", "raw"}).Draw(t, "preferDeflate")
 	c.AcceptEncoding = rapid.SampledFrom([]string{"", "", "", "deflate, gzip, br, zstd", "none", "identity", "gzip;q=1.0, deflate;q=0.5"}).Draw(t, "acceptEncoding")
+	c.Job = rapid.SampledFrom([]string{"", "", "", "node exporter", "serviceMonitor/monitoring/node-exporter/0", "a+b", "caf\u00e9 100%"}).Draw(t, "job")
+	c.Params = rapid.SampledFrom([]string{"", "", "plain", "space", "utf8", "latin1"}).Draw(t, "params")
 	return c
 }
 
